@@ -341,6 +341,8 @@ class Series:
 
     def sort_values(self, ascending=True, inplace=False, kind="quicksort", ignore_index=False, na_position="last",
                     **kw):
+        if na_position != "last":
+            raise E.Unsupported("sort_values: argument value outside the modelled subset")
         order = sort_positions([self._vals], ascending, stable=kind in ("stable", "mergesort"))
         r = self._take(order)
         if ignore_index:
@@ -361,6 +363,8 @@ class Series:
         return r
 
     def drop_duplicates(self, keep="first"):
+        if keep != "first":
+            raise E.Unsupported("drop_duplicates: argument value outside the modelled subset")
         seen, pos = [], []
         for i, v in enumerate(self._vals):
             if not any(same_label(v, u) for u in seen):
@@ -392,7 +396,11 @@ class Series:
         return self._new([E.sor(*[C_EQ(v, x) for x in vv]) for v in self._vals], dtype="bool")
 
     def between(self, lo, hi, inclusive="both"):
-        return (self >= lo) & (self <= hi)
+        if inclusive not in ("both", "left", "right", "neither"):
+            raise ValueError("Inclusive has to be either string of 'both','left', 'right', or 'neither'.")
+        a = (self >= lo) if inclusive in ("both", "left") else (self > lo)
+        b = (self <= hi) if inclusive in ("both", "right") else (self < hi)
+        return a & b
 
     def where(self, cond, other=NAN):
         cv = _mask_cells(cond, self.index)
@@ -677,6 +685,8 @@ class Series:
         return s if is_na(s) else s * s
 
     def quantile(self, q=0.5, interpolation="linear"):
+        if interpolation != "linear":
+            raise E.Unsupported("quantile: argument value outside the modelled subset")
         v = self._valid()
         sv = [v[i] for i in sort_positions([v])]
         if _is_listlike(q):
@@ -710,6 +720,8 @@ class Series:
     def rank(self, method="average", ascending=True, na_option="keep", pct=False, **kw):
         """ranks as ite sums (no forking): min = 1 + #smaller, max = #smaller-or-equal, average = their mean,
         first = min + #equal earlier, dense = 1 + #distinct smaller"""
+        if na_option != "keep":
+            raise E.Unsupported("rank: argument value outside the modelled subset")
         vals = self._vals
         out = []
         for i, v in enumerate(vals):
@@ -757,10 +769,14 @@ class Series:
         return self._new(order)
 
     def nlargest(self, n=5, keep="first"):
+        if keep != "first":
+            raise E.Unsupported("nlargest: argument value outside the modelled subset")
         order = sort_positions([self._vals], False, stable=True)
         return self._take([i for i in order if not is_na(self._vals[i])][:n])
 
     def nsmallest(self, n=5, keep="first"):
+        if keep != "first":
+            raise E.Unsupported("nsmallest: argument value outside the modelled subset")
         order = sort_positions([self._vals], True, stable=True)
         return self._take([i for i in order if not is_na(self._vals[i])][:n])
 
@@ -777,6 +793,8 @@ class Series:
         raise E.Unsupported("Series.mode")
 
     def duplicated(self, keep="first"):
+        if keep != "first":
+            raise E.Unsupported("duplicated: argument value outside the modelled subset")
         seen, out = [], []
         for v in self._vals:
             d = any(same_label(v, u) for u in seen)
